@@ -4,7 +4,7 @@ func init() {
 	register("C02", &propInfo{
 		Explanation: "BP: every tabled bisection that refines a surface point keeps the contained end in the variable it later reports as contained (BP.OUT), validates/swaps its ends consistently before the loop (BP.PRE) BisectInterior takes the inside result (BP.SEL) and Bisect/BisectInterior rebuild the returned point with exactly the expression Contains was evaluated on (BP.SAME). UNIT: margins and offsets in the meshing code (mc.go, marching.go, dc.go, surface_estimator.go) are lengths: a documented fraction of Delta is multiplied by Delta before it is added to a coordinate, and every function returns one dimension on all paths.",
 		Trusted:     append([]string{"the table of bisection sites and their documented 'inside' output (checker/bp.go)"}, unitTrusted...),
-		Fixtures:    []string{"u"},
+		Fixtures:    []string{"u", "w"},
 		Run: func(c *Ctx) {
 			c.runBisectionPolarity("BP")
 			c.floor("BP.OUT", 4)
@@ -16,8 +16,15 @@ func init() {
 			c.floor("UNIT", 10)
 			c.runArgSwap("ARGSWAP", c.unitPkgs("u"), baseIn("mc.go", "marching.go", "dc.go", "surface_estimator.go"), nil)
 			c.floor("ARGSWAP", 4)
+			c.runAxisCall("AXISCALL", append(c.libPkgs(), c.fixturePkg("u")), nil)
+			c.floor("AXISCALL", 0)
+			// a refinement pass whose result is dropped refines nothing
+			c.runPureCall("PURECALL", newEffEngine(c), append(c.libPkgs()[:2:2], c.fixturePkg("w")), c.fileFilter("mc.go", "marching.go", "dc.go", "surface_estimator.go"))
+			c.floor("PURECALL", 0)
 		},
 		SelfTest: []Mutation{
+			{Name: "2D search refinement computed and dropped", File: "model2d/marching.go",
+				Old: "\treturn msSearch(s, delta, iters, mesh)\n", New: "\tmsSearch(s, delta, iters, mesh)\n\treturn mesh\n", All: true, Rule: "PURECALL", Expect: "msSearch"},
 			{Name: "bisection range keeps the outside end as 'inside'", File: "model3d/surface_estimator.go",
 				Old: "\t\tif s.Solid.Contains(p1.Add(d.Scale(f))) {\n\t\t\tmax = f\n\t\t} else {\n\t\t\tmin = f\n\t\t}", New: "\t\tif s.Solid.Contains(p1.Add(d.Scale(f))) {\n\t\t\tmin = f\n\t\t} else {\n\t\t\tmax = f\n\t\t}", Rule: "BP.OUT", Expect: "BisectInterpRange"},
 			{Name: "interior point taken from the outside end", File: "model3d/mc.go",
